@@ -56,7 +56,7 @@ func Load(repoDir string) (*Prog, error) {
 	var terrs []string
 	packages.Visit(pkgs, nil, func(pk *packages.Package) {
 		p.All[pk.PkgPath] = pk
-		if strings.HasPrefix(pk.PkgPath, Module) {
+		if InModulePath(pk.PkgPath) {
 			for _, e := range pk.Errors {
 				terrs = append(terrs, e.Error())
 			}
@@ -97,7 +97,7 @@ func Load(repoDir string) (*Prog, error) {
 			}
 		}
 		pk := fn.Package()
-		if pk == nil || pk.Pkg == nil || !strings.HasPrefix(pk.Pkg.Path(), Module) {
+		if pk == nil || pk.Pkg == nil || !InModulePath(pk.Pkg.Path()) {
 			continue
 		}
 		if fn.Blocks == nil {
@@ -111,6 +111,12 @@ func Load(repoDir string) (*Prog, error) {
 	}
 	sort.Slice(p.allFns, func(i, j int) bool { return FnName(p.allFns[i]) < FnName(p.allFns[j]) })
 	return p, nil
+}
+
+// InModulePath: path is the module itself or one of its packages (not a
+// sibling module sharing the name prefix such as bitxhub-model).
+func InModulePath(path string) bool {
+	return path == Module || strings.HasPrefix(path, Module+"/")
 }
 
 // ModuleFuncs returns all source functions (including closures) of module
